@@ -19,6 +19,8 @@ PMAPS = {
     'edge': {'w': {'vars': ['weight'], 'edges': [['a/so/x', 'b/to/u']]}},
     'both': {'k': {'vars': ['so/k'], 'nodes': ['b']}, 'w': {'vars': ['weight'], 'edges': [['a/so/x', 'b/to/u']]}},
     'init': {'x0': {'vars': ['so/x'], 'nodes': ['a']}, 'k': {'vars': ['so/k'], 'nodes': ['a']}},
+    'three': {'k': {'vars': ['so/k'], 'nodes': ['b']}, 'w': {'vars': ['weight'], 'edges': [['a/so/x', 'b/to/u']]},
+              'x0': {'vars': ['so/x'], 'nodes': ['a']}},
 }
 VALUES = {'k': [0.5, 2.0, 3.5], 'w': [-1.0, 0.75, 4.0], 'x0': [0.2, 0.9, 1.4]}
 
@@ -44,7 +46,10 @@ def cases(tier, seed):
             grids = []
             for n in (2, 3):
                 grids.append(({k: VALUES[k][:n] for k in keys}, False))
-            if len(keys) == 2:
+            if len(keys) == 3:
+                grids.append(({keys[0]: VALUES[keys[0]][:2], keys[1]: VALUES[keys[1]][:3], keys[2]: VALUES[keys[2]][:2]}, True))
+                grids.append(({keys[0]: VALUES[keys[0]][:3], keys[1]: VALUES[keys[1]][:2], keys[2]: VALUES[keys[2]][:2]}, True))
+            elif len(keys) == 2:
                 grids.append(({keys[0]: VALUES[keys[0]][:2], keys[1]: VALUES[keys[1]][:3]}, True))
                 grids.append(({keys[0]: VALUES[keys[0]][:2], keys[1]: VALUES[keys[1]][:2]}, True))
             else:
@@ -55,12 +60,19 @@ def cases(tier, seed):
                         for solver in ('euler',) + (('scipy',) if tier != 'quick' or (vec and not inp) else ()):
                             out.append({'circuit': circ, 'pmap': pm, 'grid': grid, 'permute': permute, 'input': inp,
                                         'vectorize': vec, 'solver': solver})
+            # the grid given as a DataFrame whose index is not 0..n-1 in order (sorted / filtered sweep tables)
+            for labels in ([2, 0, 1], [1, 3, 4], [3, 1, 2, 0]):
+                n = len(labels)
+                g = {k: [VALUES[k][(i + j) % 3] + 0.125 * (i // 3) for i in range(n)] for j, k in enumerate(keys)}
+                for vec in (True, False):
+                    out.append({'circuit': circ, 'pmap': pm, 'grid': g, 'permute': False, 'input': False, 'vectorize': vec,
+                                'solver': 'euler', 'df_index': labels})
     return out
 
 
 def describe(tier, seed):
     return {'rule': '2 circuits x parameter maps {node parameter, several nodes per key, several variables per key, edge '
-                    'attribute, node+edge, initial value+parameter} x grids {equal-length 2 and 3, permuted 2x2 / 2x3 / 3} x '
+                    'attribute, node+edge, initial value+parameter, three keys} x grids {equal-length 2 and 3, permuted 2x2 / 2x3 / 3 / 2x3x2 / 3x2x2, DataFrame grids with permuted or sparse index labels} x '
                     'inputs {none, shared array} x vectorize x solver; for every row of the returned parameter table the '
                     'block of result columns labelled with that row key must equal a separate run of a fresh template updated '
                     'with those values; non-trivial = all',
@@ -87,8 +99,13 @@ def run_case(case):
               vectorize=case['vectorize'], verbose=False, float_precision='float64', backend='default', clear=True)
     if case['solver'] == 'scipy':
         kw.update(rtol=1e-8, atol=1e-10)
+    pgrid = {k: list(v) for k, v in case['grid'].items()}
+    if case.get('df_index'):
+        import pandas as pd
+        pgrid = pd.DataFrame(pgrid, index=list(case['df_index']))
+        sig['features'].append('dataframe_grid_with_own_index')
     try:
-        df, table = grid_search(build(case['circuit']), param_grid={k: list(v) for k, v in case['grid'].items()},
+        df, table = grid_search(build(case['circuit']), param_grid=pgrid,
                                 param_map=pmap, outputs=dict(outs), permute_grid=case['permute'],
                                 inputs={'a/to/u': inp.copy()} if inp is not None else None, **kw)
     except Exception as e:
